@@ -239,6 +239,47 @@ fn rotation_instance(spec: &Spec, sk: &SecretKey, elts: &[usize], pk_ct: &Arc<Ci
         }) }
 }
 
+/// rotations of a ciphertext racing with the plaintext-side automorphism (`apply_galois_plain*` on an NTT-form plaintext) of the
+/// same / another element: both go through the shared permutation-table cache of the key level
+fn rotation_plain_instance(spec: &Spec, roles: &[(bool, usize)], pk_ct: &Arc<Ciphertext>, plain: &Arc<Plaintext>, gk_src: &Arc<GaloisKeys>, expected_ct: &Arc<Vec<Option<Ciphertext>>>, expected_pl: &Arc<Vec<Option<Plaintext>>>) -> Instance {
+    let ctx = spec.context().expect("context");
+    let eval = Arc::new(Evaluator::new(ctx.clone()));
+    let res_ct: Arc<Mutex<Vec<Option<Ciphertext>>>> = Arc::new(Mutex::new(vec![None; roles.len()]));
+    let res_pl: Arc<Mutex<Vec<Option<Plaintext>>>> = Arc::new(Mutex::new(vec![None; roles.len()]));
+    let mut bodies: Vec<Body> = vec![];
+    for (i, &(is_plain, g)) in roles.iter().enumerate() {
+        if is_plain {
+            let (e, p, r) = (eval.clone(), plain.clone(), res_pl.clone());
+            bodies.push(Box::new(move || { let x = match i % 3 { 0 => e.apply_galois_plain_new(&p, g), 1 => { let mut d = Plaintext::new(); e.apply_galois_plain(&p, g, &mut d); d } _ => { let mut x = (*p).clone(); e.apply_galois_plain_inplace(&mut x, g); x } }; r.lock().unwrap()[i] = Some(x); }));
+        } else {
+            let (e, c, k, r) = (eval.clone(), pk_ct.clone(), gk_src.clone(), res_ct.clone());
+            bodies.push(Box::new(move || { let x = e.apply_galois_new(&c, g, &k); r.lock().unwrap()[i] = Some(x); }));
+        }
+    }
+    let c2 = ctx.clone();
+    let distinct = roles.iter().map(|r| r.1).collect::<HashSet<_>>().len();
+    let (ec, ep, c3, roles) = (expected_ct.clone(), expected_pl.clone(), ctx.clone(), roles.to_vec());
+    Instance { bodies, observer: Some(Box::new(move || c2.key_context_data().unwrap().verif_galois_tool().verif_tables_filled())), max_requested: Some(distinct),
+        check: Box::new(move |_out| {
+            let mut v = vec![];
+            let (rc, rp) = (res_ct.lock().unwrap(), res_pl.lock().unwrap());
+            for (i, &(is_plain, g)) in roles.iter().enumerate() {
+                if is_plain {
+                    match (&rp[i], &ep[i]) { (Some(x), Some(w)) if x.data() == w.data() && x.parms_id() == w.parms_id() && x.scale().to_bits() == w.scale().to_bits() => {},
+                        (Some(_), _) => v.push(("apply_galois_plain|value".to_string(), format!("thread {} plaintext automorphism (element {}) differs from the sequential result", i, g))),
+                        (None, _) => v.push(("apply_galois_plain|no_result".to_string(), format!("thread {} produced no result", i))) }
+                } else {
+                    match (&rc[i], &ec[i]) { (Some(x), Some(w)) if same_ct(x, w) => {},
+                        (Some(_), _) => v.push(("apply_galois|value".to_string(), format!("thread {} rotation result (element {}) differs from the sequential bytes", i, g))),
+                        (None, _) => v.push(("apply_galois|no_result".to_string(), format!("thread {} produced no result", i))) }
+                }
+            }
+            let filled = c3.key_context_data().unwrap().verif_galois_tool().verif_tables_filled();
+            if filled != distinct { v.push(("cache|final_length".to_string(), format!("{} permutation tables cached at quiescence, expected {}", filled, distinct))); }
+            v
+        }) }
+}
+
 /// checks common to every execution: no panic, no deadlock, per-thread monotone cache observations
 fn common_checks(out: &RunOutcome, max_requested: Option<usize>) -> Vec<(String, String)> {
     let mut v = vec![];
@@ -329,6 +370,19 @@ fn scenarios(rng: &mut Rng) -> Vec<Scenario> {
                 let (s, sk, c, g) = (spec.clone(), kit.sk.clone(), ct.clone(), gk.clone());
                 let n = elts.len();
                 out.push(Scenario { name, threads: n, make: Box::new(move || rotation_instance(&s, &sk, &elts, &c, &g, &expected)), stress_only: false });
+            }
+            // rotations racing with plaintext-side automorphisms (NTT-form plaintext) through the same cache
+            {
+                let pl = Arc::new(enc.encode_c64_array_new(&vals, None, 2f64.powi(20)));
+                for (name, roles) in [("rotate_vs_plain_same_elt", vec![(false, 3usize), (true, 3)]), ("plain_vs_plain_same_elt", vec![(true, 3), (true, 3)]), ("rotate_vs_plain_diff_elts", vec![(false, 3), (true, 5)]),
+                                      ("rotate_plain_rotate_3_threads", vec![(false, 3), (true, 3), (false, 3)]), ("plain_rotate_plain_3_threads", vec![(true, 3), (false, 3), (true, 3)])] {
+                    let seq_eval = Evaluator::new(spec.context().unwrap());
+                    let ec: Arc<Vec<Option<Ciphertext>>> = Arc::new(roles.iter().map(|&(p, g)| if p { None } else { Some(seq_eval.apply_galois_new(&ct, g, &gk)) }).collect());
+                    let ep: Arc<Vec<Option<Plaintext>>> = Arc::new(roles.iter().map(|&(p, g)| if p { Some(seq_eval.apply_galois_plain_new(&pl, g)) } else { None }).collect());
+                    let (s, c, p, g) = (spec.clone(), ct.clone(), pl.clone(), gk.clone());
+                    let n = roles.len();
+                    out.push(Scenario { name, threads: n, make: Box::new(move || rotation_plain_instance(&s, &roles, &c, &p, &g, &ec, &ep)), stress_only: false });
+                }
             }
             // large degree, many threads, one cold table: the table-generation window grows with N (stress only)
             let big = tiny_spec(SchemeType::CKKS, 2048);
